@@ -155,7 +155,8 @@ class NexusFitter(object):
 
     @property
     def fixed_parameters(self):
-        return self._fixed_pars.copy()
+        # the value of a fixed parameter can still be set: report the current one, not the one at the time of fixing
+        return dict(self.get_fit_parameter_values(list(self._fixed_pars.keys())))
 
     @property
     def limited_parameters(self):
